@@ -16,7 +16,7 @@ RULE = ('Each worker draws a pool of documents (fixtures, generated valid and fa
         'non-trivial = distinct (previous document, document) adjacencies compared.')
 ASSUMPTIONS = ['time- and random-derived envelope fields of the acknowledgement and the HTML date line are the only exempted differences',
                'module-level containers that are registries filled at import time may only change by the first use of a map (none are expected)']
-REQUIRED_COUNTERS = ['histories', 'history-steps', 'fresh-processes', 'comparisons', 'sentinel-checks', 'sentinels:mutable-defaults', 'distinct-hashseeds']
+REQUIRED_COUNTERS = ['cli-histories', 'histories', 'history-steps', 'fresh-processes', 'comparisons', 'sentinel-checks', 'sentinels:mutable-defaults', 'distinct-hashseeds']
 MIN_CASES = {'quick': 250, 'thorough': 8000}
 WATCHDOG_S = {'quick': 1500, 'thorough': 7200}
 
@@ -272,6 +272,40 @@ def run(ctx):
             if prev is not None:
                 sigs.add('%s>%s' % (prev.split(':')[1][:12] if ':' in prev else prev, name.split(':')[1][:12] if ':' in name else name))
             prev = name
+    # the command-line tools process their input files one after the other in ONE process: what a file gets must not depend on the files before it
+    import os
+    import subprocess
+    d = os.path.join(ctx.scratch, 'c18-cli-%d' % ctx.shard)
+    os.makedirs(d, exist_ok=True)
+    ascii_pool = [(nm, t) for nm, t in pool if all(ord(c) < 128 for c in t) and fresh_res.get(nm, {}).get('exc') is None and fresh_res.get(nm, {}).get('ack')]
+    for h in range(2 if ctx.quick else 12):
+        rng = ctx.sub_rng('c18cli', ctx.shard, h)
+        if len(ascii_pool) < 3:
+            break
+        seq = rng.sample(ascii_pool, 3)
+        seq.sort(key=lambda x_: -len(fresh_res[x_[0]]['ack'] or []))           # longest acknowledgement first: leftovers would show in the later ones
+        for f in os.listdir(d):
+            os.unlink(os.path.join(d, f))
+        paths = []
+        for i, (nm, t) in enumerate(seq):
+            pth = os.path.join(d, 'h%d.x12' % i)
+            with open(pth, 'w', encoding='ascii', newline='') as fd:
+                fd.write(t)
+            paths.append(pth)
+        for tool, ext, key, norm in (('x12valid', '.997', 'ack', norm_ack), ('x12html', '.html', 'html', norm_html)):
+            cmd = [sys.executable, '-m', 'pyx12.scripts.' + tool, '-q'] + (['-H'] if tool == 'x12html' else []) + paths
+            subprocess.run(cmd, stdout=subprocess.PIPE, stderr=subprocess.PIPE, env=dict(os.environ, PYTHONWARNINGS='ignore', PYTHONHASHSEED='0'), timeout=600, cwd=d)
+            ctx.count('cli-histories')
+            for i, ((nm, t), pth) in enumerate(zip(seq, paths)):
+                out = pth + ext
+                got = norm(open(out, encoding='utf-8', errors='replace', newline='').read()) if os.path.exists(out) else None
+                ctx.count('comparisons')
+                n += 1
+                if got != fresh_res[nm][key]:
+                    ctx.viol('cli-history:%s:file-%d-of-3' % (key, i + 1), 'what a command-line tool writes for a file depends on the files it processed before in the same run', {'tool': tool, 'documents': [x_[0] for x_ in seq], 'file_index': i},
+                             dict(first_diff(got, fresh_res[nm][key]), output=key))
+                if os.path.exists(out):
+                    os.unlink(out)
     ctx.case(n=n, sigs=sorted(sigs), sample={'history': hist[:8]})
 
 
